@@ -342,14 +342,14 @@ func c15Scenarios(tier string) []Scenario {
 	}
 	if tier == "thorough" {
 		return []Scenario{
-			{"2x1", []string{"R", "W"}, lv([3]int{0, 0, 0}, [3]int{1, 1, 1}, [3]int{2, 1, 2}, [3]int{2, 1, 3}, [3]int{3, 2, 4})},
+			{"2x1", []string{"R", "W"}, lv([3]int{0, 0, 0}, [3]int{1, 1, 1}, [3]int{2, 1, 2}, [3]int{2, 2, 3}, [3]int{3, 2, 4})},
 			{"2x2", []string{"RS", "WP"}, lv([3]int{0, 0, 0}, [3]int{1, 1, 1}, [3]int{2, 1, 2}, [3]int{3, 2, 3})},
 			{"3x1", []string{"R", "W", "R"}, lv([3]int{0, 0, 0}, [3]int{1, 1, 1}, [3]int{2, 1, 2}, [3]int{3, 2, 3})},
 			{"3x211", []string{"RS", "W", "P"}, lv([3]int{0, 0, 0}, [3]int{1, 1, 1}, [3]int{2, 1, 2}, [3]int{3, 2, 3})},
 		}
 	}
 	return []Scenario{
-		{"2x1", []string{"R", "W"}, lv([3]int{0, 0, 0}, [3]int{1, 1, 1}, [3]int{2, 1, 2}, [3]int{2, 1, 3})},
+		{"2x1", []string{"R", "W"}, lv([3]int{0, 0, 0}, [3]int{1, 1, 1}, [3]int{2, 1, 2}, [3]int{2, 2, 3})},
 		{"2x2", []string{"RS", "WP"}, lv([3]int{0, 0, 0}, [3]int{1, 1, 1}, [3]int{2, 1, 2})},
 	}
 }
